@@ -644,6 +644,21 @@ func (c *Ctx) c02Sweep(snap *load.FuncInfo) {
 						r.Check(!errRet, "C02.N5", fi.Name(), "end of stream ends the record loop without an error", c.P.Pos(e.Cond.Pos()), "the io.EOF edge does not return the error",
 							"the decoder returns io.EOF as a failure (and treats real read errors as the end of the stream): every restore of a complete snapshot fails, a truncated one is accepted")
 					} else {
+						// … or the test for the end of the stream comes first and the test for an error after it: from this edge,
+						// on the paths on which the error may be set, the function ends with it
+						if !errRet && okEnd {
+							var eo types.Object
+							for _, side := range []ast.Expr{be.X, be.Y} {
+								if isErr(side) {
+									eo = astx.Obj(di, ast.Unparen(side).(*ast.Ident))
+								}
+							}
+							if eo != nil {
+								if strong, _ := c.errDecisiveFrom(di, dg, e.To, eo, true); strong {
+									errRet = true
+								}
+							}
+						}
 						r.Check(errRet || !okEnd, "C02.N5", fi.Name(), "a read error other than end of stream fails the restore", c.P.Pos(e.Cond.Pos()), "the non-EOF edge returns the error",
 							"a read error that is not the end of the stream ends the record loop as if the snapshot were complete: the node comes up with a truncated state")
 					}
@@ -653,6 +668,72 @@ func (c *Ctx) c02Sweep(snap *load.FuncInfo) {
 		if nEOF == 0 {
 			r.Break("C02.N5: no io.EOF test found in %s", name)
 		}
+		// every record of the stream that is not the state record is applied: no iteration of the record loop comes back to
+		// its start without having passed the apply call or the branch of the state record; and what the apply call returns is
+		// none of Restore's business (a replayed entry that was refused when it was first applied is refused again)
+		var loop *ast.ForStmt
+		ast.Inspect(fi.Body(), func(n ast.Node) bool {
+			if fs, ok := n.(*ast.ForStmt); ok && loop == nil && fs.Cond == nil {
+				loop = fs
+			}
+			return loop == nil
+		})
+		if loop == nil || len(loop.Body.List) == 0 {
+			r.Break("C02.N5: the record loop of %s was not recognised", name)
+			continue
+		}
+		start := dg.VertexOf(loop.Body.List[0])
+		applyV := -1
+		var applyCall *ast.CallExpr
+		for _, v := range dg.Nodes() {
+			if v.Node.Pos() < loop.Body.Pos() || v.Node.End() > loop.Body.End() {
+				continue
+			}
+			for _, call := range astx.Calls(v.Node, false) {
+				if fn := astx.Callee(di, call); fn != nil && (fname(fn) == "applyProto" || fname(fn) == "Apply") && c.P.FuncOf(fn) != nil {
+					applyV, applyCall = v.ID, call
+				}
+			}
+		}
+		if applyV < 0 || start < 0 {
+			r.Break("C02.N5: no apply call in the record loop of %s", name)
+			continue
+		}
+		isStateEdge := func(e *cfgx.Edge) bool {
+			for _, f := range e.Facts() {
+				if !f.Val {
+					continue
+				}
+				var be *ast.BinaryExpr
+				if f.Tag != nil {
+					if refersTo(di, f.Expr, pathRobust, "State") {
+						return true
+					}
+					continue
+				}
+				be, _ = ast.Unparen(f.Expr).(*ast.BinaryExpr)
+				if be != nil && be.Op == token.EQL && (refersTo(di, be.X, pathRobust, "State") || refersTo(di, be.Y, pathRobust, "State")) {
+					return true
+				}
+			}
+			return false
+		}
+		reach := dg.Reach(start, func(x int) bool { return x == applyV }, isStateEdge)
+		skips := false
+		for x := range dg.V {
+			if !reach[x] {
+				continue
+			}
+			for _, e := range dg.V[x].Succ {
+				if e.To == start && x != start && !isStateEdge(e) {
+					skips = true
+				}
+			}
+		}
+		r.Check(!skips, "C02.N5", fi.Name(), "every record that is not the state record is applied", c.P.Pos(applyCall.Pos()), "no iteration returns to the start of the loop without the apply call",
+			"the restore loop passes some records by (a type it skips, a guard in front of the apply call): the restored node misses what those entries did — e.g. the duplicate marker that a skipped message of death still advances")
+		_, isStmt := dg.V[applyV].Node.(*ast.ExprStmt)
+		r.Check(isStmt, "C02.N5", fi.Name(), "the result of replaying a record does not end the restore", c.P.Pos(applyCall.Pos()), "the apply call is a statement of its own",
+			"Restore looks at what applying a replayed entry returns: an entry that was refused when it was first applied (a session limit reached) now aborts the restore, and everything after it is missing on the restored node")
 	}
 }
-
